@@ -8,6 +8,15 @@ NAMES = ["a", "b", "c", "d", "e", "f"]
 HOSTILE = ["other", "state", "f", "builder", "source", "_0", "v", "r#fn"]
 
 
+# names that differ only by leading underscores / by the prefixes the generated bindings use
+HOSTILE2 = ["x", "_x", "__x", "_s_x", "_o_x", "v_x"]
+
+
+def vnames(k):
+    """field names for a named variant: ordinary, or the colliding family, by rotation"""
+    return HOSTILE2 if k % 3 == 1 else NAMES
+
+
 class Counter:
     def __init__(self):
         self.n = 0
@@ -121,7 +130,7 @@ def c02(tier, seed):
                     if ty not in generics:
                         generics.append(ty)
                 sp = spell_field(carrier, sem, form + pos)
-                fs.append(Field(NAMES[j] if kind == "named" else None, ty, attrs=[sp] if sp else [], eq=sem))
+                fs.append(Field(vnames(ci + vi)[j] if kind == "named" else None, ty, attrs=[sp] if sp else [], eq=sem))
             variants.append(Variant("V%d" % vi, kind, fs))
         traits = ["PartialEq"] + (["Eq"] if with_eq else [])
         P = Program(c.pid(), "enum", "E", variants, traits, generics=generics, inst=inst_for(generics, rot=ci),
@@ -277,7 +286,7 @@ def c03(tier, seed):
                 if tier != "quick":
                     a = rnd.choice("nnim")
                 g2 = []
-                f = ord_field(NAMES[j] if kind == "named" else None, a, ranks[j], md, carrier, form + pos, g2, pos)
+                f = ord_field(vnames(ci + vi)[j] if kind == "named" else None, a, ranks[j], md, carrier, form + pos, g2, pos)
                 if g2:
                     f.ty = "T%d" % (pos % 3)
                     if f.ty not in generics:
@@ -367,7 +376,7 @@ def c05(tier, seed):
                 if tier != "quick":
                     a = rnd.choice("nnim")
                 # same field type across variants at the same position: only the tag tells them apart
-                fs.append(hash_field(NAMES[j] if kind == "named" else None, a, form + pos, j, ci))
+                fs.append(hash_field(vnames(ci + vi)[j] if kind == "named" else None, a, form + pos, j, ci))
             variants.append(Variant("V%d" % vi, kind, fs))
         out.append(Program(c.pid(), "enum", "E", variants, ["Hash"], focus={"Hash"}, note="enum %s" % "/".join(combo)))
     return out
@@ -462,7 +471,7 @@ def c07(tier, seed):
                     pos += 1
                     # enums accept a custom method together with Copy (clone is then field-wise)
                     a = "m" if ((pos + ci) % 3 == 0 and (not copy or ci % 2 == 0)) else "n"
-                    f = clone_field(NAMES[j] if kind == "named" else None, a, form + pos, pos, generics, (j + vi) % 3)
+                    f = clone_field(vnames(ci + vi)[j] if kind == "named" else None, a, form + pos, pos, generics, (j + vi) % 3)
                     fs.append(f)
                 variants.append(Variant("V%d" % vi, kind, fs))
             if copy and any(f.s("clone", "method") for v in variants for f in v.fields):
@@ -593,7 +602,7 @@ def _c08(tier, seed):
                     kind, m = kinds[(vi + rot + mark) % len(kinds)]
                     marked = vi == mark
                     # only the designated variant's fields may carry expressions (others are rejected by educe)
-                    fs = [def_field(NAMES[j] if kind == "named" else None,
+                    fs = [def_field(vnames(form + vi)[j] if kind == "named" else None,
                                     ((form + vi + j) % nl) if (marked and (form + vi + j) % 2 == 0) else -(1 + form + j), form + j, j)
                           for j in range(m)]
                     variants.append(Variant("V%d" % vi, kind, fs, attrs=["Default"] if (marked and (nv > 1 or form % 2)) else [],
@@ -606,6 +615,15 @@ def _c08(tier, seed):
           Variant("V2", "named", [Field("a", "bool", default={"expected": "unused"})])]
     out.append(Program(c.pid(), "enum", "E", vs, ["Default(expression = E::V1(4))"], focus={"Default"},
                        note="enum type-level expression", default={"new": False, "type_expected": "E::V1(4u8)"}))
+    # single-variant enums with a type-level expression (the expression wins over "the only variant")
+    for sp, (vkind, fields, src, exp) in enumerate([
+            ("tuple", [("u8", None)], "E::V0(42)", "E::V0(42u8)"),
+            ("named", [("u8", "a"), ("bool", "b")], "E::V0 { a: 3, b: true }", "E::V0 { a: 3u8, b: true }"),
+            ("tuple", [("u32", None), ("char", None)], "E::V0(7, 'q')", "E::V0(7u32, 'q')")]):
+        for tl in ("Default(expression = %s)", "Default(new, expr = %s)"):
+            vs = [Variant("V0", vkind, [Field(n, t, default={"expected": "unused"}) for t, n in fields])]
+            out.append(Program(c.pid(), "enum", "E", vs, [tl % src], focus={"Default"}, note="single-variant enum with type-level expression `%s`" % (tl % src),
+                               default={"new": "new" in tl, "type_expected": exp}))
     # unions: marked or only field
     for nf in (1, 2, 3):
         for mark in range(nf):
@@ -1151,7 +1169,7 @@ def c06(tier, seed):
                         ty = "T%d" % ((vi + j) % 3)
                         if ty not in generics:
                             generics.append(ty)
-                        fs.append(dbg_field(NAMES[j] if kind == "named" else None, ty, a, form + vi + j, struct_style))
+                        fs.append(dbg_field(vnames(ci + vi)[j] if kind == "named" else None, ty, a, form + vi + j, struct_style))
                     vmeta = dbg_type_meta(vn if vn is not True else "default", vnf, form + vi)
                     variants.append(Variant("V%d" % vi, kind, fs, attrs=[vmeta] if vmeta else [], debug={"name": vn, "named_field": vnf}))
                 generics.sort()
@@ -1554,6 +1572,92 @@ def wide(prop):
     LONG = ["a", "b", "c", "d", "e", "f", "g"]
     # a field that is ignored AND carries a method: ignore wins, the method must never run
     BOTH = [("b",), ("n", "b"), ("b", "n"), ("n", "b", "n"), ("m", "b", "i"), ("b", "b"), ("n", "n", "b")]
+    # exotic generics (lifetime + const generic + where clause, reference and array fields): Kani only
+    EXO_GEN = ["'a", "T0: 'a", "const N: usize"]
+    EXO_INST = {"T0": "u8", "N": "2", "'a": "'static"}
+    def exo(P):
+        P.generics = list(EXO_GEN); P.inst = dict(EXO_INST); P.where = "T0: Copy"
+        P.tags["no_verus"] = "lifetime / const generic / reference and array fields: outside vstd's specs, decided by Kani on the instantiation <'static, u8, 2>"
+        return P
+    def exo_fields(group, sems, shape):
+        tys = ["&'a T0", "[u8; N]", "T0", "u8"]
+        return [Field(LONG[i] if shape == "named" else None, tys[i], attrs=([a] if a else []), **{group: sm}) for i, (a, sm) in enumerate(sems)]
+    # two-digit tuple indexes
+    def wide_tuple(group, carrier, meths, n=12):
+        fs = []
+        for i in range(n):
+            a = {9: "i", 10: "m", 3: "i", 11: "n"}.get(i, "n")
+            sem = {"ignore": a == "i", "method": meths[i % 2] if a == "m" else None}
+            if group == "ord":
+                sem["rank"] = None
+            sp = spell_field(carrier, sem, i)
+            fs.append(Field(None, "u8", attrs=[sp] if sp else [], **{group: sem}))
+        return fs
+    def colliding(group, plain, meth_sem, meth_attr):
+        """enum with named variants whose same-typed fields are called x, _x, __x, _s_x, _o_x, v_x"""
+        vs = []
+        for vi, names in enumerate((["x", "_x"], ["_x", "__x", "x"], ["_s_x", "_o_x", "v_x", "x"])):
+            fs = []
+            for j, nm in enumerate(names):
+                if j == 1 and vi != 1:
+                    fs.append(Field(nm, "u8", attrs=[meth_attr], **{group: dict(meth_sem)}))
+                else:
+                    fs.append(Field(nm, "u8", **{group: dict(plain)}))
+            vs.append(Variant("V%d" % vi, "named", fs))
+        return vs
+    if prop == "C02":
+        out.append(Program(pid(), "enum", "E", colliding("eq", {}, {"method": "crate::m::eq_a"}, "PartialEq(method = crate::m::eq_a)"), ["PartialEq"], focus={"PartialEq"},
+                           note="named variants with same-typed fields x/_x/__x/_s_x/_o_x/v_x"))
+    if prop == "C03":
+        for md in ("both", "po"):
+            car = "Ord" if md == "both" else "PartialOrd"
+            m = "crate::m::cmp_a" if md == "both" else "crate::m::pcmp_a"
+            out.append(ord_program(pid(), "enum", "E", colliding("ord", {}, {"method": m}, "%s(method = %s)" % (car, m)), md, [], 0,
+                                   "named variants with same-typed fields x/_x/__x/_s_x/_o_x/v_x mode=%s" % md))
+    if prop == "C05":
+        out.append(Program(pid(), "enum", "E", colliding("hash", {}, {"method": "crate::m::hash_a"}, "Hash(method = crate::m::hash_a)"), ["Hash"], focus={"Hash"},
+                           note="named variants with same-typed fields x/_x/__x/_s_x/_o_x/v_x"))
+    if prop == "C07":
+        generics = []
+        vs = colliding("clone", {}, {"method": "crate::m::clone_a"}, "Clone(method = crate::m::clone_a)")
+        out.append(clone_program(pid(), "enum", "E", vs, [], False, "named variants with same-typed fields x/_x/__x/_s_x/_o_x/v_x", 1))
+    if prop == "C02":
+        for shape in ("named", "tuple"):
+            fs = exo_fields("eq", [(None, {}), ("PartialEq(ignore)", {"ignore": True}), (None, {}), ("PartialEq(method = crate::m::eq_a)", {"method": "crate::m::eq_a"})], shape)
+            out.append(exo(Program(pid(), "struct", "S", [Variant(None, shape, fs)], ["PartialEq"], focus={"PartialEq"}, note="exotic generics struct %s" % shape)))
+        vs = [Variant("V0", "named", exo_fields("eq", [(None, {}), (None, {}), ("PartialEq(ignore)", {"ignore": True}), (None, {})], "named")),
+              Variant("V1", "tuple", exo_fields("eq", [("PartialEq(ignore)", {"ignore": True}), (None, {}), (None, {}), ("PartialEq(method = crate::m::eq_b)", {"method": "crate::m::eq_b"})], "tuple"))]
+        out.append(exo(Program(pid(), "enum", "E", vs, ["PartialEq"], focus={"PartialEq"}, note="exotic generics enum")))
+        out.append(Program(pid(), "struct", "S", [Variant(None, "tuple", wide_tuple("eq", "PartialEq", EQ_METHODS))], ["PartialEq"], focus={"PartialEq"}, note="12-field tuple struct (two-digit indexes)"))
+        out.append(Program(pid(), "enum", "E", [Variant("V0", "unit", []), Variant("V1", "tuple", wide_tuple("eq", "PartialEq", EQ_METHODS, 11))], ["PartialEq"], focus={"PartialEq"}, note="11-field tuple variant"))
+    if prop == "C03":
+        for md in ("both", "po"):
+            car = "Ord" if md == "both" else "PartialOrd"
+            meths = ["crate::m::cmp_a", "crate::m::cmp_b"] if md == "both" else ["crate::m::pcmp_a", "crate::m::pcmp_b"]
+            for shape in ("named", "tuple"):
+                fs = exo_fields("ord", [(None, {}), ("%s(ignore)" % car, {"ignore": True}), ("%s(rank = -1)" % car, {"rank": -1}), ("%s(method = %s)" % (car, meths[0]), {"method": meths[0]})], shape)
+                P = ord_program(pid(), "struct", "S", [Variant(None, shape, fs)], md, [], 0, "exotic generics struct %s mode=%s" % (shape, md))
+                out.append(exo(P))
+            P = ord_program(pid(), "struct", "S", [Variant(None, "tuple", wide_tuple("ord", car, meths))], md, [], 0, "12-field tuple struct mode=%s" % md)
+            out.append(P)
+        # Ord educed alone, PartialOrd / PartialEq / Eq derived by std: only Ord::cmp is under contract
+        for shape in ("named", "tuple"):
+            fs = [Field(LONG[0] if shape == "named" else None, "u8", attrs=["Ord(rank = 2)"], ord={"rank": 2}), Field(LONG[1] if shape == "named" else None, "u16", ord={}),
+                  Field(LONG[2] if shape == "named" else None, "u8", attrs=["Ord(ignore)"], ord={"ignore": True})]
+            P = Program(pid(), "struct", "S", [Variant(None, shape, fs)], ["Ord"], focus={"Ord"}, extra_derive=["PartialEq", "Eq", "PartialOrd"],
+                        note="Ord educed alone (std-derived PartialOrd) struct %s" % shape, ord={"mode": "ord_only"})
+            P.tags["no_verus"] = "std-derived companion impls are not part of educe's expansion; Kani decides Ord::cmp"
+            out.append(P)
+    if prop == "C05":
+        for shape in ("named", "tuple"):
+            fs = exo_fields("hash", [(None, {}), ("Hash(ignore)", {"ignore": True}), (None, {}), ("Hash(method = crate::m::hash_a)", {"method": "crate::m::hash_a"})], shape)
+            out.append(exo(Program(pid(), "struct", "S", [Variant(None, shape, fs)], ["Hash"], focus={"Hash"}, note="exotic generics struct %s" % shape)))
+        out.append(Program(pid(), "struct", "S", [Variant(None, "tuple", wide_tuple("hash", "Hash", HASH_METHODS))], ["Hash"], focus={"Hash"}, note="12-field tuple struct (two-digit indexes)"))
+    if prop == "C07":
+        for shape in ("named", "tuple"):
+            fs = exo_fields("clone", [(None, {}), (None, {}), (None, {}), ("Clone(method = crate::m::clone_a)", {"method": "crate::m::clone_a"})], shape)
+            P = exo(clone_program(pid(), "struct", "S", [Variant(None, shape, fs)], [], False, "exotic generics struct %s" % shape, 1))
+            out.append(P)
     if prop == "C02":
         for assign in BOTH:
             for shape in ("named", "tuple"):
